@@ -1,6 +1,7 @@
 //! C13: client/server jar merge (`dukebox::merge::merge`) driven through in-memory `ParsedJar`s.
 //! Wire format: see lean/FeatherModel/Driver/C13.lean.
 use std::io::Cursor;
+use std::panic::{catch_unwind, AssertUnwindSafe};
 use anyhow::Result as AResult;
 use duke::tree::annotation::{Annotation, ElementValue, ElementValuePair};
 use duke::tree::class::{ClassAccess, ClassFile, ClassName, InnerClass, InnerClassFlags, ObjClassName};
@@ -307,11 +308,38 @@ fn jar_read(j: &PJ) -> AResult<Vec<EntD>> {
 	Ok(out)
 }
 
-fn run_merge(client: &[EntD], server: &[EntD]) -> R<AResult<PJ>> {
+/// outcome of the real `merge`: `Ok`, `Err`, or a caught panic named by its site
+enum MOut { Ok(PJ), Err, Panic(&'static str) }
+
+thread_local! { static PANIC_FILE: std::cell::RefCell<String> = const { std::cell::RefCell::new(String::new()) }; }
+
+/// runs the real code under `catch_unwind`. A panic is attributed to a site of merge.rs only if its location is in
+/// dukebox/src/merge.rs (own panic hook for the duration of the call); there both panic sites are
+/// `pretty_assertions::assert_eq!` (message "assertion failed: `(left == right)`" + a Debug diff of the two values):
+/// the one in the InnerClasses closure prints `InnerClass { .. }` values, `merge_from_client` prints a Version, an
+/// access-flag struct or a bool. Anything else is reported as site `other`, which the model never predicts
+fn run_merge(client: &[EntD], server: &[EntD]) -> R<MOut> {
 	let c = jar_build(client)?;
 	let s = jar_build(server)?;
-	Ok(dukebox::merge::merge(c, s))
+	let prev = std::panic::take_hook();
+	std::panic::set_hook(Box::new(|info| {
+		let f = info.location().map(|l| l.file().to_owned()).unwrap_or_default();
+		PANIC_FILE.with(|p| *p.borrow_mut() = f);
+	}));
+	let res = catch_unwind(AssertUnwindSafe(move || dukebox::merge::merge(c, s)));
+	std::panic::set_hook(prev);
+	Ok(match res {
+		Ok(Ok(j)) => MOut::Ok(j),
+		Ok(Err(_)) => MOut::Err,
+		Err(payload) => {
+			let msg = payload.downcast_ref::<String>().cloned()
+				.or_else(|| payload.downcast_ref::<&str>().map(|s| s.to_string())).unwrap_or_default();
+			let in_merge_rs = PANIC_FILE.with(|p| p.borrow().ends_with("dukebox/src/merge.rs"));
+			MOut::Panic(if !in_merge_rs || !msg.contains("assertion failed") { "other" } else if msg.contains("InnerClass") { "inner_classes" } else { "merge_from_client" })
+		}
+	})
 }
+fn panic_ans(site: &str) -> Ans { Ans::Ok(Sexp::list(vec![Sexp::tag("panic"), Sexp::tag(site)])) }
 
 // ------------------------------------------------------------------ mpo through the public API
 
@@ -339,7 +367,11 @@ fn mpo_impl(mode: &str, a: &[usize], b: &[usize]) -> R<AResult<Vec<usize>>> {
 		Ok(c)
 	};
 	let ent = |c: ClsD| vec![EntD { name: T_ENTRY.into(), attr: 0, content: ContD::Class(false, c) }];
-	let r = run_merge(&ent(mk(a, true)?), &ent(mk(b, false)?))?;
+	let r = match run_merge(&ent(mk(a, true)?), &ent(mk(b, false)?))? {
+		MOut::Ok(j) => Ok(j),
+		MOut::Err => Err(anyhow::anyhow!("err")),
+		MOut::Panic(site) => Err(anyhow::anyhow!("panic {site}")),
+	};
 	Ok(r.and_then(|j| {
 		let out = jar_read(&j)?;
 		let [EntD { content: ContD::Class(_, c), .. }] = &out[..] else { anyhow::bail!("shape") };
@@ -360,36 +392,74 @@ fn is_subseq<T: PartialEq>(xs: &[T], ys: &[T]) -> bool {
 	let mut it = ys.iter();
 	xs.iter().all(|x| it.any(|y| y == x))
 }
-fn compatible(a: &[usize], b: &[usize]) -> bool {
+fn compatible<T: PartialEq>(a: &[T], b: &[T]) -> bool {
 	let fa: Vec<_> = a.iter().filter(|x| b.contains(x)).collect();
 	let fb: Vec<_> = b.iter().filter(|x| a.contains(x)).collect();
 	fa == fb
 }
 fn key(m: &MemD) -> (&str, &str) { (&m.name, &m.desc) }
-fn keys_nodup(ms: &[MemD]) -> bool { nodup(&ms.iter().map(key).collect::<Vec<_>>()) }
+fn keys(ms: &[MemD]) -> Vec<(&str, &str)> { ms.iter().map(key).collect() }
+fn inner_names(c: &ClsD) -> Vec<&str> { c.inners.iter().map(|i| i.name.as_str()).collect() }
+fn keys_nodup(ms: &[MemD]) -> bool { nodup(&keys(ms)) }
 fn no_env(ms: &[MemD]) -> bool { ms.iter().all(|m| m.anns.iter().all(|a| !matches!(a, AnnD::Env(_)))) }
 fn shared_flags_ok(c: &[MemD], s: &[MemD]) -> bool {
 	c.iter().all(|mc| s.iter().all(|ms| key(mc) != key(ms) || (mc.dep == ms.dep && mc.syn == ms.syn)))
 }
+fn shared_inners_ok(c: &ClsD, s: &ClsD) -> bool {
+	c.inners.iter().all(|ic| s.inners.iter().all(|is| ic.name != is.name || ic == is))
+}
+fn keys_ok(c: &ClsD, s: &ClsD) -> bool {
+	keys_nodup(&c.fields) && keys_nodup(&s.fields) && keys_nodup(&c.methods) && keys_nodup(&s.methods)
+		&& nodup(&inner_names(c)) && nodup(&inner_names(s))
+}
 fn merge_ok(c: &ClsD, s: &ClsD) -> bool {
 	c.version == s.version && c.access == s.access && c.name == s.name && c.sup == s.sup && c.dep == s.dep && c.syn == s.syn
-		&& keys_nodup(&c.fields) && keys_nodup(&s.fields) && keys_nodup(&c.methods) && keys_nodup(&s.methods)
-		&& nodup(&c.inners.iter().map(|i| &i.name).collect::<Vec<_>>()) && nodup(&s.inners.iter().map(|i| &i.name).collect::<Vec<_>>())
-		&& shared_flags_ok(&c.fields, &s.fields) && shared_flags_ok(&c.methods, &s.methods)
-		&& c.inners.iter().all(|ic| s.iter_inners().all(|is| ic.name != is.name || ic == is))
+		&& keys_ok(c, s)
+		&& shared_flags_ok(&c.fields, &s.fields) && shared_flags_ok(&c.methods, &s.methods) && shared_inners_ok(c, s)
 }
-impl ClsD { fn iter_inners(&self) -> impl Iterator<Item = &InnD> { self.inners.iter() } }
+fn no_panic_dom(c: &ClsD, s: &ClsD) -> bool {
+	c.version == s.version && c.access == s.access && c.dep == s.dep && c.syn == s.syn
+		&& shared_flags_ok(&c.fields, &s.fields) && shared_flags_ok(&c.methods, &s.methods) && shared_inners_ok(c, s)
+}
+fn union_domain(c: &ClsD, s: &ClsD) -> bool { merge_ok(c, s) && c != s && nodup(&c.itfs) && nodup(&s.itfs) }
+fn marks_domain(c: &ClsD, s: &ClsD) -> bool {
+	union_domain(c, s) && no_env(&c.fields) && no_env(&s.fields) && no_env(&c.methods) && no_env(&s.methods)
+}
 
+/// every element of either list exactly once; client order; server order when compatible
+fn list_check<T: PartialEq>(tag: &str, a: &[T], b: &[T], r: &[T]) -> Option<String> {
+	if !(nodup(r) && r.iter().all(|x| a.contains(x) || b.contains(x)) && a.iter().chain(b.iter()).all(|x| r.contains(x))) { return Some(format!("{tag}-union")); }
+	if !is_subseq(a, r) { return Some(format!("{tag}-client-order")); }
+	if compatible(a, b) && !is_subseq(b, r) { return Some(format!("{tag}-server-order")); }
+	None
+}
+fn union_check(c: &ClsD, s: &ClsD, r: &ClsD) -> Option<String> {
+	list_check("fields", &keys(&c.fields), &keys(&s.fields), &keys(&r.fields))
+		.or_else(|| list_check("methods", &keys(&c.methods), &keys(&s.methods), &keys(&r.methods)))
+		.or_else(|| list_check("itfs", &c.itfs, &s.itfs, &r.itfs))
+		.or_else(|| list_check("inners", &inner_names(c), &inner_names(s), &inner_names(r)))
+		.or_else(|| if r.inners.iter().all(|i| c.inners.contains(i) || s.inners.contains(i)) { None } else { Some("inner-entry".into()) })
+		.or_else(|| if r.version == c.version && r.access == c.access && r.name == c.name && r.sup == c.sup && r.dep == c.dep && r.syn == c.syn
+			&& r.payload == c.payload && r.vis == c.vis { None } else { Some("header".into()) })
+}
+fn marked(m: &MemD, side: Side) -> MemD { let mut e = m.clone(); e.anns.push(AnnD::Env(side)); e }
 fn marks_of_members(c: &[MemD], s: &[MemD], r: &[MemD]) -> bool {
 	r.iter().all(|m| {
 		let mc = c.iter().find(|x| key(x) == key(m));
 		let ms = s.iter().find(|x| key(x) == key(m));
 		match (mc, ms) {
-			(Some(mc), Some(_)) => m.anns == mc.anns,
-			(Some(mc), None) => { let mut e = mc.anns.clone(); e.push(AnnD::Env(Side::C)); m.anns == e }
-			(None, Some(ms)) => { let mut e = ms.anns.clone(); e.push(AnnD::Env(Side::S)); m.anns == e }
+			(Some(mc), Some(_)) => m == mc,
+			(Some(mc), None) => *m == marked(mc, Side::C),
+			(None, Some(ms)) => *m == marked(ms, Side::S),
 			(None, None) => false,
 		}
+	})
+}
+fn env_marks(m: &MemD) -> Vec<Side> { m.anns.iter().filter_map(|a| if let AnnD::Env(s) = a { Some(*s) } else { None }).collect() }
+fn mark_counts(c: &[MemD], s: &[MemD], r: &[MemD]) -> bool {
+	r.iter().all(|m| {
+		let expect = if keys(c).contains(&key(m)) { if keys(s).contains(&key(m)) { vec![] } else { vec![Side::C] } } else { vec![Side::S] };
+		env_marks(m) == expect
 	})
 }
 fn marks_of_itfs(c: &ClsD, s: &ClsD, r: &ClsD) -> bool {
@@ -398,7 +468,7 @@ fn marks_of_itfs(c: &ClsD, s: &ClsD, r: &ClsD) -> bool {
 	match r.invis.last() {
 		Some(AnnD::Itfs(marks)) =>
 			r.invis[..r.invis.len() - 1] == c.invis[..] && nodup(marks)
-			&& marks.iter().all(|(sd, i)| match sd {
+			&& marks.iter().all(|(sd, i)| r.itfs.contains(i) && match sd {
 				Side::C => c.itfs.contains(i) && !s.itfs.contains(i),
 				Side::S => s.itfs.contains(i) && !c.itfs.contains(i),
 			})
@@ -406,7 +476,16 @@ fn marks_of_itfs(c: &ClsD, s: &ClsD, r: &ClsD) -> bool {
 		_ => false,
 	}
 }
+fn marks_check(c: &ClsD, s: &ClsD, r: &ClsD) -> Option<String> {
+	if !marks_of_members(&c.fields, &s.fields, &r.fields) { Some("field-marks".into()) }
+	else if !marks_of_members(&c.methods, &s.methods, &r.methods) { Some("method-marks".into()) }
+	else if !(mark_counts(&c.fields, &s.fields, &r.fields) && mark_counts(&c.methods, &s.methods, &r.methods)) { Some("mark-count".into()) }
+	else if !marks_of_itfs(c, s, r) { Some("itf-marks".into()) }
+	else { None }
+}
+
 const MANIFEST: &str = "META-INF/MANIFEST.MF";
+const MANIFEST_BYTES: &[u8] = b"Manifest-Version: 1.0\nMain-Class: net.minecraft.client.Main\n";
 fn is_sig(n: &str) -> bool { n.starts_with("META-INF/") && (n.ends_with(".SF") || n.ends_with(".RSA")) }
 fn is_bundled(n: &str) -> bool { n.ends_with(".class") && !n.starts_with("net/minecraft/") && n.contains('/') }
 fn jar_domain(c: &[EntD], s: &[EntD]) -> bool {
@@ -419,10 +498,49 @@ fn jar_domain(c: &[EntD], s: &[EntD]) -> bool {
 		},
 	})
 }
+/// what the property (and, where it is silent, the table the theorems state) asks for a one-sided entry
+fn one_sided_spec(e: &EntD, side: Side) -> EntD {
+	match &e.content {
+		ContD::Class(_, c) => { let mut c = c.clone(); c.vis.push(AnnD::Env(side)); EntD { name: e.name.clone(), attr: e.attr, content: ContD::Class(false, c) } }
+		_ => e.clone(),
+	}
+}
+/// one entry `e` of the merged jar against the table
+fn entry_check(c: &[EntD], s: &[EntD], e: &EntD) -> Option<String> {
+	let oc = c.iter().find(|x| x.name == e.name);
+	let os = s.iter().find(|x| x.name == e.name);
+	let t = |ok: bool, tag: &str| if ok { None } else { Some(tag.to_owned()) };
+	if e.name == MANIFEST {
+		let attr = match (oc, os) { (Some(c), _) => c.attr, (None, Some(s)) => s.attr, (None, None) => 0 };
+		return t(e.attr == attr && e.content == ContD::Other(MANIFEST_BYTES.to_vec()), "manifest");
+	}
+	match (oc, os) {
+		(Some(ce), None) => t(*e == one_sided_spec(ce, Side::C), "client-only"),
+		(None, Some(se)) => t(*e == one_sided_spec(se, Side::S), "server-only"),
+		(None, None) => Some("extra".into()),
+		(Some(ce), Some(se)) => match (&ce.content, &se.content) {
+			(ContD::Dir, ContD::Dir) => t(e.attr == ce.attr && e.content == ContD::Dir, "dir"),
+			(ContD::Other(dc), ContD::Other(_)) => t(e.attr == ce.attr && e.content == ContD::Other(dc.clone()), "resource"),
+			(ContD::Class(_, cc), ContD::Class(_, cs)) => {
+				if cc == cs { return t(e == ce, "passthrough"); }
+				match &e.content {
+					ContD::Class(false, m) => {
+						if e.attr != ce.attr { return Some("merged-attr".into()); }
+						(if union_domain(cc, cs) { union_check(cc, cs, m) } else { None })
+							.or_else(|| if marks_domain(cc, cs) { marks_check(cc, cs, m) } else { None })
+					}
+					_ => Some("merged-repr".into()),
+				}
+			}
+			_ => Some("kind".into()),
+		},
+	}
+}
 
 // ------------------------------------------------------------------ exec
 
 fn nats(s: &Sexp) -> R<Vec<usize>> { list_from(s, |x| x.as_nat()) }
+fn verdict(v: Option<String>) -> Ans { match v { None => Ans::pass(), Some(t) => Ans::fail(&t) } }
 
 fn exec(op: &str, args: &[Sexp]) -> Ans {
 	macro_rules! tr { ($e:expr) => { match $e { Ok(x) => x, Err(e) => return Ans::BadOp(e.to_string()) } } }
@@ -448,35 +566,53 @@ fn exec(op: &str, args: &[Sexp]) -> Ans {
 				_ => if is_subseq(&b, &r) { Ans::pass() } else { Ans::fail("server-order") },
 			}
 		}
-		("merge-class" | "oracle-marks", [c, s]) => {
+		("merge-class" | "oracle-marks" | "oracle-class-union" | "oracle-class-ok-iff" | "oracle-no-panic", [c, s]) => {
 			let c = tr!(cls_from(c)); let s = tr!(cls_from(s));
-			if op == "oracle-marks" {
-				let dom = merge_ok(&c, &s) && c != s && no_env(&c.fields) && no_env(&s.fields) && no_env(&c.methods) && no_env(&s.methods)
-					&& nodup(&c.itfs) && nodup(&s.itfs);
-				if !dom { return Ans::out_of_domain(); }
-			}
-			let ent = |c: &ClsD| vec![EntD { name: "net/minecraft/X.class".into(), attr: 0, content: ContD::Class(false, c.clone()) }];
-			let merged = tr!(run_merge(&ent(&c), &ent(&s))).and_then(|j| jar_read(&j));
-			let r = match merged {
-				Ok(r) => r,
-				Err(_) => return if op == "merge-class" { Ans::err() } else { Ans::fail("not-ok") },
+			let dom = match op {
+				"oracle-marks" => marks_domain(&c, &s),
+				"oracle-class-union" => union_domain(&c, &s),
+				"oracle-class-ok-iff" => keys_ok(&c, &s),
+				"oracle-no-panic" => no_panic_dom(&c, &s),
+				_ => true,
 			};
-			let [EntD { content, .. }] = &r[..] else { return Ans::BadOp("shape".into()) };
-			if op == "merge-class" { return Ans::Ok(cont_to(content)); }
-			let ContD::Class(_, r) = content else { return Ans::fail("not-ok") };
-			if !marks_of_members(&c.fields, &s.fields, &r.fields) { Ans::fail("field-marks") }
-			else if !marks_of_members(&c.methods, &s.methods, &r.methods) { Ans::fail("method-marks") }
-			else if !marks_of_itfs(&c, &s, r) { Ans::fail("itf-marks") }
-			else { Ans::pass() }
+			if !dom { return Ans::out_of_domain(); }
+			let ent = |c: &ClsD| vec![EntD { name: "net/minecraft/X.class".into(), attr: 0, content: ContD::Class(false, c.clone()) }];
+			// outcome: the merged content, a clean error, or a panic site
+			let out: Result<ContD, Option<&'static str>> = match tr!(run_merge(&ent(&c), &ent(&s))) {
+				MOut::Panic(site) => Err(Some(site)),
+				MOut::Err => Err(None),
+				MOut::Ok(j) => match jar_read(&j) {
+					Err(_) => Err(None),
+					Ok(r) => { let [EntD { content, .. }] = &r[..] else { return Ans::BadOp("shape".into()) }; Ok(content.clone()) }
+				},
+			};
+			match op {
+				"merge-class" => match out { Ok(content) => Ans::Ok(cont_to(&content)), Err(None) => Ans::err(), Err(Some(site)) => panic_ans(site) },
+				"oracle-class-ok-iff" => {
+					let is_ok = out.is_ok();
+					if is_ok == merge_ok(&c, &s) { Ans::pass() } else { Ans::fail(if is_ok { "ok-outside-mergeOk" } else { "not-ok-inside-mergeOk" }) }
+				}
+				"oracle-no-panic" => if matches!(out, Err(Some(_))) { Ans::fail("panic") } else { Ans::pass() },
+				_ => match out {
+					Err(Some(_)) => Ans::fail("panic"),
+					Err(None) => Ans::fail("not-ok"),
+					Ok(ContD::Class(_, r)) => verdict(if op == "oracle-marks" { marks_check(&c, &s, &r) } else { union_check(&c, &s, &r) }),
+					Ok(_) => Ans::fail("not-ok"),
+				},
+			}
 		}
 		("merge-jars" | "oracle-entries", [c, s]) => {
 			let c = tr!(jar_from(c)); let s = tr!(jar_from(s));
 			if op == "oracle-entries" && !jar_domain(&c, &s) { return Ans::out_of_domain(); }
 			let merged = tr!(run_merge(&c, &s));
 			if op == "merge-jars" {
-				return match merged.and_then(|j| jar_read(&j)) { Ok(r) => Ans::Ok(jar_to(&r)), Err(_) => Ans::err() };
+				return match merged {
+					MOut::Ok(j) => match jar_read(&j) { Ok(r) => Ans::Ok(jar_to(&r)), Err(_) => Ans::err() },
+					MOut::Err => Ans::err(),
+					MOut::Panic(site) => panic_ans(site),
+				};
 			}
-			let Ok(j) = merged else { return Ans::fail("not-ok") };
+			let j = match merged { MOut::Ok(j) => j, MOut::Err => return Ans::fail("not-ok"), MOut::Panic(_) => return Ans::fail("panic") };
 			let Ok(r) = jar_read(&j) else { return Ans::fail("not-ok") };
 			// every name of either jar exactly once, minus signature files and bundled server libraries, client first
 			let mut expect: Vec<&str> = Vec::new();
@@ -486,6 +622,8 @@ fn exec(op: &str, args: &[Sexp]) -> Ans {
 				expect.push(&e.name);
 			}
 			if r.iter().map(|e| e.name.as_str()).collect::<Vec<_>>() != expect { return Ans::fail("names"); }
+			// every entry against the table
+			for e in &r { if let Some(t) = entry_check(&c, &s, e) { return Ans::fail(&t); } }
 			// identical classes: the client's representation is passed through (byte-identical for stored bytes)
 			let cj = tr!(jar_build(&c));
 			for ce in &c {
@@ -497,7 +635,7 @@ fn exec(op: &str, args: &[Sexp]) -> Ans {
 					(Some(JarEntryEnum::Class(ClassRepr::Parsed { class: c1 })), Some(JarEntryEnum::Class(ClassRepr::Parsed { class: c2 }))) => c1 == c2,
 					_ => false,
 				};
-				if !same { return Ans::fail("passthrough"); }
+				if !same { return Ans::fail("passthrough-bytes"); }
 			}
 			Ans::pass()
 		}
@@ -608,18 +746,65 @@ fn gen_class_pair(r: &mut Rng, out: &mut Out) -> (ClsD, ClsD) {
 		if method { c.methods = ca; s.methods = sb; } else { c.fields = ca; s.fields = sb; }
 	}
 	// inner classes: shared entries equal, some one-sided
-	let (_, a, b) = list_pair(r);
+	let (shape, a, b) = list_pair(r);
 	if nodup(&a) && nodup(&b) {
-		c.inners = a.iter().take(3).map(|k| InnD { name: format!("net/minecraft/C0$I{k}"), flags: [1, 9, 0x19][k % 3] }).collect();
-		s.inners = b.iter().take(3).map(|k| InnD { name: format!("net/minecraft/C0$I{k}"), flags: [1, 9, 0x19][k % 3] }).collect();
+		out.stats.hit(&format!("class-inners:{shape}"));
+		c.inners = a.iter().take(4).map(|k| InnD { name: format!("net/minecraft/C0$I{k}"), flags: [1, 9, 0x19][k % 3] }).collect();
+		s.inners = b.iter().take(4).map(|k| InnD { name: format!("net/minecraft/C0$I{k}"), flags: [1, 9, 0x19][k % 3] }).collect();
 	}
 	(c, s)
+}
+
+/// push the pair into one of the failure regions of `class_merger_merge` (clean error, panic) or keep it mergeable
+fn class_case(r: &mut Rng, out: &mut Out, c: &mut ClsD, s: &mut ClsD) {
+	let flip_shared = |c: &ClsD, s: &mut ClsD, methods: bool, r: &mut Rng| -> bool {
+		let (cm, sm) = if methods { (&c.methods, &mut s.methods) } else { (&c.fields, &mut s.fields) };
+		let shared: Vec<usize> = (0..sm.len()).filter(|i| cm.iter().any(|m| key(m) == key(&sm[*i]))).collect();
+		if shared.is_empty() { return false; }
+		let i = *r.pick(&shared);
+		if r.chance(1, 2) { sm[i].dep = !sm[i].dep; } else { sm[i].syn = !sm[i].syn; }
+		true
+	};
+	match r.below(32) {
+		0 | 1 => { *s = c.clone(); out.stats.hit("class-case:identical"); }
+		2 => { s.name = "net/minecraft/Other".into(); out.stats.hit("class-case:name-differs(err)"); }
+		3 => { s.sup = Some("net/minecraft/Base".into()); out.stats.hit("class-case:super-differs(err)"); }
+		4 => {
+			// pre-existing side marks (a re-merge); outside the marks domain
+			if let Some(m) = c.fields.first_mut() { m.anns.push(AnnD::Env(Side::S)); }
+			if let Some(m) = s.methods.first_mut() { m.anns.push(AnnD::Env(Side::C)); }
+			out.stats.hit("class-case:pre-marked");
+		}
+		5 => { s.version = if c.version == 52 { 61 } else { 52 }; out.stats.hit("class-case:version-differs(panic)"); }
+		6 => { s.access = c.access ^ *r.pick(&[0x10, 0x01, 0x1000]); out.stats.hit("class-case:access-differs(panic)"); }
+		7 => { if r.chance(1, 2) { s.dep = !c.dep; } else { s.syn = !c.syn; } out.stats.hit("class-case:class-dep-syn-differs(panic)"); }
+		8 => { let m = r.chance(1, 2); out.stats.hit(if flip_shared(c, s, m, r) { "class-case:shared-member-flag-differs(panic)" } else { "class-case:mergeable" }); }
+		9 => {
+			let shared: Vec<usize> = (0..s.inners.len()).filter(|i| c.inners.iter().any(|x| x.name == s.inners[*i].name)).collect();
+			if shared.is_empty() { out.stats.hit("class-case:mergeable"); } else {
+				let i = *r.pick(&shared); s.inners[i].flags ^= 0x8;
+				out.stats.hit("class-case:shared-inner-differs(panic)");
+			}
+		}
+		10 => { s.name = "net/minecraft/Other".into(); s.access = c.access ^ 0x10; out.stats.hit("class-case:name+access-differ(panic first)"); }
+		11 => { s.sup = Some("net/minecraft/Base".into()); let m = r.chance(1, 2); flip_shared(c, s, m, r); out.stats.hit("class-case:super+member-flag-differ(err first)"); }
+		12 => {
+			// a repeated key on one side (IndexMap::collect keeps the last); outside keysOk
+			if let Some(m) = c.fields.first().cloned() { c.fields.push(MemD { payload: m.payload + 5, ..m }); }
+			if let Some(m) = s.methods.last().cloned() { s.methods.insert(0, MemD { access: 0x0401, ..m }); }
+			out.stats.hit("class-case:duplicate-keys");
+		}
+		13 => { let m = r.chance(1, 2); flip_shared(c, s, m, r); if let Some(i) = s.inners.first_mut() { i.flags ^= 1; } out.stats.hit("class-case:member-flag+inner(panic order)"); }
+		_ => out.stats.hit("class-case:mergeable"),
+	}
 }
 
 const NAMES: &[&str] = &[
 	"net/minecraft/A.class", "net/minecraft/B.class", "net/minecraft/sub/D.class", "C.class", "com/google/Lib.class", "org/x/Y.class",
 	"net/minecraftx/Z.class", "META-INF/MANIFEST.MF", "META-INF/MOJANG.SF", "META-INF/MOJANG.RSA", "META-INF/versions.list",
 	"META-INF/sub/X.SF", "META-INF/", "other/a.SF", "assets/x.png", "data/", "pack.mcmeta", "net/minecraft/", "log4j2.xml", "com/lib/res.class",
+	"META-INF/MOJANG.DSA", "META-INF/X.EC", "META-INF/x.sf", "net/minecraft/server/Main.class", "META-INFO/x.SF", "a/META-INF/y.RSA",
+	"net/minecraft", "lib.class/x",
 ];
 
 fn gen_jar_pair(r: &mut Rng, out: &mut Out, allow_mismatch: bool) -> (Vec<EntD>, Vec<EntD>) {
@@ -637,13 +822,14 @@ fn gen_jar_pair(r: &mut Rng, out: &mut Out, allow_mismatch: bool) -> (Vec<EntD>,
 				0 => { s = c.clone(); out.stats.hit("class-pair:identical"); }
 				_ => { if c.itfs.len() + c.fields.len() > 6 { c.fields.truncate(2); s.fields.truncate(2); } out.stats.hit("class-pair:differing"); }
 			}
+			if allow_mismatch && where_ == 2 && r.chance(1, 4) { class_case(r, out, &mut c, &mut s); }
 			(ContD::Class(r.chance(1, 2), c), ContD::Class(r.chance(1, 2), s))
 		} else if n.ends_with('/') {
 			(ContD::Dir, ContD::Dir)
 		} else {
 			let d: Vec<u8> = (0..r.below(5)).map(|_| r.below(256) as u8).collect();
 			let d2 = if r.chance(1, 2) { d.clone() } else { vec![r.below(256) as u8] };
-			out.stats.hit(if d == d2 { "resource:equal" } else { "resource:different" });
+			if where_ == 2 { out.stats.hit(if d == d2 { "resource:equal" } else { "resource:different" }); }
 			(ContD::Other(d), ContD::Other(d2))
 		};
 		let mut sc = sc;
@@ -667,13 +853,45 @@ fn mpo_ops(out: &mut Out, mode: &str, a: &[usize], b: &[usize], all: bool) {
 		out.op("oracle-mpo-client-order", &args);
 	}
 }
+fn class_ops(out: &mut Out, c: &ClsD, s: &ClsD) {
+	let args = [cls_to(c), cls_to(s)];
+	for op in ["merge-class", "oracle-marks", "oracle-class-union", "oracle-class-ok-iff", "oracle-no-panic"] { out.op(op, &args); }
+}
+fn jar_ops(out: &mut Out, c: &[EntD], s: &[EntD]) {
+	let args = [jar_to(c), jar_to(s)];
+	out.op("merge-jars", &args);
+	out.op("oracle-entries", &args);
+}
 
 fn gen(r: &mut Rng, tier: Tier, out: &mut Out) {
 	let thorough = tier == Tier::Thorough;
+	// `Rng::new(seed)` is linear in the seed with the stream's own increment, so the stream of seed n+1 is the stream of
+	// seed n shifted by one draw; forking (state := one mixed output) makes the runs of different seeds unrelated
+	let mut forked = r.fork();
+	let r = &mut forked;
 	// fixed regression list: past defects stay detectable
-	//  - before the fix `merge_preserve_order` answered client ++ (server \ client): [x] + [y,x] gave [x,y]
+	//  - before the fix `merge_preserve_order` answered client ++ (server \\ client): [x] + [y,x] gave [x,y]
 	for (a, b) in [(vec![0], vec![1, 0]), (vec![0, 1], vec![0, 2, 1]), (vec![1, 2], vec![0, 1, 3, 2, 4]), (vec![0, 1], vec![1, 0])] {
 		for mode in ["itf", "fld", "mth", "inn"] { mpo_ops(out, mode, &a, &b, true); }
+	}
+	// the panic witnesses of Thm/C13.lean (`merge_class_*_panic_witness`, `merge_jar_panic_witness`) on the real code
+	{
+		let w = ClsD { name: "net/minecraft/A".into(), ..base_class() };
+		let f = |dep: bool| MemD { dep, ..mem("f".into(), "I") };
+		let inn = |flags: usize| InnD { name: "net/minecraft/A$B".into(), flags };
+		let pairs = [
+			(w.clone(), ClsD { access: 0x31, ..w.clone() }),
+			(w.clone(), ClsD { version: 61, ..w.clone() }),
+			(ClsD { fields: vec![f(false)], ..w.clone() }, ClsD { fields: vec![f(true)], ..w.clone() }),
+			(ClsD { inners: vec![inn(8)], ..w.clone() }, ClsD { inners: vec![inn(9)], ..w.clone() }),
+			(w.clone(), ClsD { sup: Some("net/minecraft/B".into()), ..w.clone() }),
+		];
+		for (c, s) in &pairs {
+			out.stats.hit("witness-pair");
+			class_ops(out, c, s);
+			let ent = |c: &ClsD| vec![EntD { name: "net/minecraft/A.class".into(), attr: 0, content: ContD::Class(false, c.clone()) }];
+			jar_ops(out, &ent(c), &ent(s));
+		}
 	}
 	// exhaustive small scope: all pairs of duplicate-free lists
 	let lists = if thorough { all_nodup_lists(5, 4) } else { all_nodup_lists(4, 3) };
@@ -694,36 +912,40 @@ fn gen(r: &mut Rng, tier: Tier, out: &mut Out) {
 		mpo_ops(out, mode, &a, &b, true);
 	}
 	// class pairs
-	let rounds = if thorough { 15000 } else { 500 };
-	for i in 0..rounds {
+	let rounds = if thorough { 15000 } else { 600 };
+	for _ in 0..rounds {
 		let (mut c, mut s) = gen_class_pair(r, out);
-		match r.below(12) {
-			0 => { s = c.clone(); out.stats.hit("class-case:identical"); }
-			1 => { s.name = "net/minecraft/Other".into(); out.stats.hit("class-case:name-differs(err)"); }
-			2 => { s.sup = Some("net/minecraft/Base".into()); out.stats.hit("class-case:super-differs(err)"); }
-			3 => {
-				// pre-existing side marks (a re-merge); outside the oracle domain, correspondence only
-				if let Some(m) = c.fields.first_mut() { m.anns.push(AnnD::Env(Side::S)); }
-				if let Some(m) = s.methods.first_mut() { m.anns.push(AnnD::Env(Side::C)); }
-				out.stats.hit("class-case:pre-marked");
+		class_case(r, out, &mut c, &mut s);
+		class_ops(out, &c, &s);
+	}
+	// the entry table, exhaustively: every name kind x where x entry kinds (one entry per jar)
+	{
+		let bc = base_class();
+		let other_class = ClsD { payload: 2, itfs: vec!["i/I".into()], ..bc.clone() };
+		let kinds: Vec<(&str, ContD)> = vec![
+			("dir", ContD::Dir), ("res1", ContD::Other(vec![1, 2])), ("res2", ContD::Other(vec![3])),
+			("cls-parsed", ContD::Class(false, bc.clone())), ("cls-vec", ContD::Class(true, bc.clone())), ("cls-other", ContD::Class(true, other_class)),
+		];
+		for n in NAMES {
+			for (_, kc) in &kinds {
+				let ce = EntD { name: (*n).into(), attr: 1, content: kc.clone() };
+				jar_ops(out, &[ce.clone()], &[]);
+				jar_ops(out, &[], &[EntD { attr: 2, ..ce.clone() }]);
+				for (_, ks) in &kinds {
+					out.stats.hit("table-exhaustive:both");
+					jar_ops(out, &[ce.clone()], &[EntD { name: (*n).into(), attr: 2, content: ks.clone() }]);
+				}
 			}
-			_ => out.stats.hit("class-case:mergeable"),
 		}
-		let args = [cls_to(&c), cls_to(&s)];
-		if i % 2 == 0 { out.op("merge-class", &args); }
-		out.op("oracle-marks", &args);
 	}
 	// jars
-	let rounds = if thorough { 8000 } else { 300 };
+	let rounds = if thorough { 8000 } else { 400 };
 	for i in 0..rounds {
-		let (c, s) = gen_jar_pair(r, out, i % 5 == 0);
-		let args = [jar_to(&c), jar_to(&s)];
-		out.op("merge-jars", &args);
-		out.op("oracle-entries", &args);
+		let (c, s) = gen_jar_pair(r, out, i % 4 == 0);
+		jar_ops(out, &c, &s);
 	}
 	// malformed / edge stream
-	out.op("merge-jars", &[Sexp::list(vec![]), Sexp::list(vec![])]);
-	out.op("oracle-entries", &[Sexp::list(vec![]), Sexp::list(vec![])]);
+	jar_ops(out, &[], &[]);
 	let dir = |n: &str| EntD { name: n.into(), attr: 1, content: ContD::Dir };
 	let oth = |n: &str, d: &[u8]| EntD { name: n.into(), attr: 2, content: ContD::Other(d.to_vec()) };
 	let cls = |n: &str, c: &ClsD| EntD { name: n.into(), attr: 3, content: ContD::Class(false, c.clone()) };
@@ -739,23 +961,27 @@ fn gen(r: &mut Rng, tier: Tier, out: &mut Out) {
 		(vec![oth("lib/a.class", b"1")], vec![oth("lib/a.class", b"2")]),            // both sides: not skipped, client wins
 		(vec![cls("net/minecraft/T.class", &bc)], vec![cls("net/minecraft/T.class", &ClsD { name: "net/minecraft/U".into(), ..bc.clone() })]),
 		(vec![cls("x.class", &bc), cls("x.class", &ClsD { payload: 2, ..bc.clone() })], vec![]), // repeated name: IndexMap keeps the last
+		// an error in a later entry after a kept one; a panic after an error-free prefix; error before panic in entry order
+		(vec![oth("a", b"x"), dir("b")], vec![oth("b", b"x")]),
+		(vec![oth("a", b"x"), cls("p.class", &bc)], vec![cls("p.class", &ClsD { access: 0x31, ..bc.clone() })]),
+		(vec![dir("b"), cls("p.class", &bc)], vec![cls("p.class", &ClsD { access: 0x31, ..bc.clone() }), oth("b", b"x")]),
+		(vec![cls("p.class", &bc), dir("b")], vec![cls("p.class", &ClsD { access: 0x31, ..bc.clone() }), oth("b", b"x")]),
 	];
 	for (c, s) in &edge {
 		out.stats.hit("edge-jar");
-		let args = [jar_to(c), jar_to(s)];
-		out.op("merge-jars", &args);
-		out.op("oracle-entries", &args);
+		jar_ops(out, c, s);
 	}
 	// duplicate member keys (IndexMap::collect keeps the last one); same asserted flags
 	let mut c = base_class(); let mut s = base_class();
 	c.fields = vec![mem("f".into(), "I"), MemD { payload: 3, ..mem("f".into(), "I") }, mem("g".into(), "I")];
 	s.fields = vec![mem("g".into(), "I"), MemD { payload: 3, ..mem("f".into(), "I") }];
-	out.op("merge-class", &[cls_to(&c), cls_to(&s)]);
-	out.op("oracle-marks", &[cls_to(&c), cls_to(&s)]);
+	class_ops(out, &c, &s);
 	s.fields = vec![MemD { payload: 4, ..mem("f".into(), "I") }, MemD { payload: 5, ..mem("f".into(), "I") }];
-	out.op("merge-class", &[cls_to(&c), cls_to(&s)]);
+	class_ops(out, &c, &s);
 	out.op("nonsense", &[]);
 	out.op("mpo", &[Sexp::tag("itf")]);
+	out.op("merge-class", &[Sexp::list(vec![])]);
+	out.op("oracle-entries", &[Sexp::tag("x"), Sexp::list(vec![])]);
 }
 
 fn main() { main_for(&gen, &exec) }
